@@ -133,6 +133,24 @@ Definition print_timestamp (f_ts : bytes -> bytes) (g_hex : bytes) (m_safeSet : 
     end.
 Definition translated_print_timestamp := true.
 
+(* Entry.printLoggerName  (returns pc.buf; None = panic) *)
+   (* argument not kept by the model (declared): pc *)
+Definition print_logger_name (f_add_string : bytes -> bytes -> bytes -> bytes) (f_wrap_to : bytes -> Z -> Z -> bytes -> bytes) (s_name : bytes) (pc : unit) (pc_noColor pc_jsonMode : bool) (pc_buf : bytes) : option bytes :=
+  if (negb (bytes_eqb s_name []))
+  then if pc_noColor
+  then let pc_buf := f_add_string pc_buf [x6c;x6f;x67;x67;x65;x72] s_name in
+  match pc_append_comma pc_jsonMode pc_buf with
+    | None => None
+    | Some pc_buf => Some (pc_buf)
+    end
+  else let pc_buf := f_wrap_to pc_buf 37 (-1) s_name in
+  match pc_append_byte pc_buf 32 with
+    | None => None
+    | Some pc_buf => Some (pc_buf)
+    end
+  else Some (pc_buf).
+Definition translated_print_logger_name := true.
+
 (* Entry.printImpl  (the statements after the blank-line rule; returns (deliveries, context); None = panic) *)
    (* argument not kept by the model (declared): pc.kvps *)
 Definition print_impl {R E D : Type} (f_begin f_timestamp f_name f_severity f_msg f_first f_pc f_rest : pcs R -> pcs R) (f_attrs : pcs R -> E * pcs R) (f_errdump : pcs R -> E -> pcs R) (f_end : pcs R -> bool -> pcs R) (f_bytes : pcs R -> bytes) (d_printout : Z -> bytes -> D) (m_mLevelColors : list (Z * list Z)) (g_flags : Z) (pc : pcs R) (tr_ : list D) : option (list D * pcs R) :=
